@@ -151,6 +151,14 @@ func NoteOf(id string) (string, bool) {
 	return hostileNotes[(h/3)%len(hostileNotes)], true
 }
 
+func idHash(id string) int {
+	h := 0
+	for _, c := range id {
+		h = (h*31 + int(c)) & 0xffffff
+	}
+	return h
+}
+
 // Bios builds the real batches (with qualities when withQual).
 func Bios(parts [][]itx.Rec, withQual bool) []obiseq.BioSequenceSlice {
 	out := make([]obiseq.BioSequenceSlice, len(parts))
@@ -165,6 +173,14 @@ func Bios(parts [][]itx.Rec, withQual bool) []obiseq.BioSequenceSlice {
 				q := make([]byte, len(r.Seq))
 				for j := range q {
 					q[j] = byte((j*7 + len(r.ID)) % 41)
+				}
+				if h := idHash(r.ID); h%5 == 1 {
+					// scores over the whole range of a byte, as they come out of a file decoded with the wrong
+					// offset (a phred+33 file read with --solexa: '!'..'?' wrap to 225..255): the writers cap
+					// them at 93, the quality line stays printable
+					for j := range q {
+						q[j] = byte((j*37 + h) % 256)
+					}
 				}
 				s.SetQualities(q)
 			}
